@@ -30,6 +30,21 @@ fn index_strategy(t: Tier) -> BoxedStrategy<Case> {
     }
 }
 
+/// Check function of the `large_structured` stratum: expand the seed-derived description, then the common oracle.
+pub fn check_large(lc: &gen::LargeCase, obs: &mut vengine::Obs) {
+    if lc.n > case::MAX_POINTS || lc.nq > 200 {
+        obs.skip("ill_formed_case");
+        return;
+    }
+    obs.class(match lc.shape {
+        gen::LargeShape::Diagonal => "shape_diagonal",
+        gen::LargeShape::Strip => "shape_strip",
+        gen::LargeShape::Lattice => "shape_lattice",
+        gen::LargeShape::TwoScale => "shape_two_scale",
+    });
+    check_case(&gen::expand_large(lc), obs);
+}
+
 pub fn property() -> Property {
     kdsim::enable_probe(true);
     Property {
@@ -60,6 +75,10 @@ pub fn property() -> Property {
             prop_sub("adjacent_floats", 1500, 20000, |_t: Tier| gen::adjacent_strategy(), check_case)
                 .chunks(8)
                 .require(&["kd_degenerate_split_predicted"]),
+            // many points: spheres whose radius is large against the query radius (cancellation in `distance - radius`)
+            prop_sub("large_structured", 40, 600, |t: Tier| gen::large_strategy(t.pick(96, 128)), check_large)
+                .chunks(8)
+                .require(&["exact_point_ulps_inside_radius", "tie_at_rank_k"]),
             // the byte decoder a coverage-guided target will use, driven by random bytes: same oracle
             prop_sub(
                 "bytes",
